@@ -31,8 +31,11 @@ pub fn codecs_of(name: &str) -> Vec<&'static str> {
 }
 
 /// run scenario `name` for codec A; returns ndjson lines
-pub fn run<A: Cx>(name: &str, seed: u64, scale: usize) -> Vec<String> {
+pub fn run<A: Cx>(name: &str, seed: u64, scale: usize, stream: Option<&str>) -> Vec<String> {
     let mut d = Drv::<A>::new(Rng::new(seed ^ 0xB105_E9));
+    if let Some(p) = stream {
+        d.stream_to(p);
+    }
     match name {
         "c01" => c01::run(&mut d, scale),
         "c01x" => c01::run_exhaustive(&mut d),
